@@ -116,8 +116,8 @@ fn main() {
                 types: 5,
                 funcs: 3,
                 max_depth: 2,
-                // named futures/streams and fixed-length lists make the generator panic (C16); keep most worlds free of them
-                async_: i % 10 == 9,
+                async_: i % 4 == 3,
+                fixed_lists: i % 5 == 4,
                 ..d
             };
             let Some((w, _, _, dis)) = witgen::generate_valid(&mut rng, &cfg) else {
